@@ -3,6 +3,7 @@ package llvc
 import (
 	"fmt"
 	"math/bits"
+	"sort"
 	"strconv"
 	"strings"
 
@@ -20,7 +21,8 @@ type Val struct {
 	T     smt.Term // integers (incl. tagged ones); empty for pointers
 	IsPtr bool
 	P     *Ptr
-	UB    uint64 // inclusive unsigned upper bound of an integer value
+	UB    uint64  // inclusive unsigned upper bound of an integer value
+	Ite   *iteRec // set when the value is ite(C, A, B) built by path merging
 }
 
 // Ptr is a pointer value: region id term (BV16), byte offset (BV64).
@@ -86,18 +88,195 @@ type addRec struct {
 // terms bundles term construction with constant folding; addInfo lets chains
 // of "+ constant" collapse into a single addition.
 type terms struct {
-	ctx     *smt.Ctx
-	addInfo map[string]addRec
+	ctx      *smt.Ctx
+	addInfo  map[string]addRec
+	defs     map[string]*defRec
+	boolDefs map[string]string // Bool-sorted definitions by name
+	axioms   []axRec
+	axIDs    map[string]bool
 }
 
 func (tm *terms) let(prefix string, t smt.Term) smt.Term {
 	if _, ok := tm.addInfo[t.S]; ok {
 		return t // keep "x + c" visible for further folding
 	}
+	return tm.named(prefix, t)
+}
+
+// named introduces a define-fun for t (like Ctx.Let) and records the
+// definition so that weak queries can be assembled and sliced.
+func (tm *terms) named(prefix string, t smt.Term) smt.Term {
 	if prefix == "" || (prefix[0] >= '0' && prefix[0] <= '9') || prefix[0] == '.' {
 		prefix = "t" + prefix
 	}
-	return tm.ctx.Let(prefix, t)
+	n := tm.ctx.Let(prefix, t)
+	if n.S != t.S {
+		d := map[string]bool{}
+		smt.Symbols(t.S, d)
+		ds := make([]string, 0, len(d))
+		for k := range d {
+			ds = append(ds, k)
+		}
+		sort.Strings(ds)
+		tm.defs[n.S] = &defRec{sort: t.Sort, deps: ds, text: "(define-fun " + n.S + " () " + t.Sort + " " + t.S + ")", isDef: true}
+		if t.Sort == smt.Bool {
+			tm.boolDefs[n.S] = t.S
+		}
+	}
+	return n
+}
+
+func (tm *terms) declConst(name, sort string) smt.Term {
+	t := tm.ctx.Const(name, sort)
+	if _, ok := tm.defs[name]; !ok {
+		tm.defs[name] = &defRec{sort: sort, text: "(declare-fun " + name + " () " + sort + ")"}
+	}
+	return t
+}
+
+func (tm *terms) freshConst(prefix, sort string) smt.Term {
+	t := tm.ctx.Fresh(prefix, sort)
+	tm.defs[t.S] = &defRec{sort: sort, text: "(declare-fun " + t.S + " () " + sort + ")"}
+	return t
+}
+
+func (tm *terms) declFun(name string, args []string, ret string) {
+	tm.ctx.DeclareFun(name, args, ret)
+	if _, ok := tm.defs[name]; !ok {
+		tm.defs[name] = &defRec{sort: "fun", text: "(declare-fun " + name + " (" + strings.Join(args, " ") + ") " + ret + ")"}
+	}
+}
+
+type axRec struct {
+	key  string
+	term smt.Term
+}
+
+func (tm *terms) axiom(id string, t smt.Term, key string) {
+	if tm.axIDs[id] {
+		return
+	}
+	tm.axIDs[id] = true
+	tm.ctx.Axiom(id, t, key)
+	tm.axioms = append(tm.axioms, axRec{key, t})
+}
+
+type defRec struct {
+	sort   string
+	deps   []string
+	text   string
+	isDef  bool
+	closed map[string]bool
+}
+
+// scalarSyms returns the scalar symbols a term depends on: it follows
+// definitions of bit-vector/Bool names, does not descend into array-sorted
+// names, and keeps path-condition names (pc!N) and memory loads (ld!N) as
+// atoms without expanding them.
+func (tm *terms) scalarSyms(s string) map[string]bool {
+	out := map[string]bool{}
+	toks := map[string]bool{}
+	smt.Symbols(s, toks)
+	for t := range toks {
+		for k := range tm.closure(t) {
+			out[k] = true
+		}
+	}
+	return out
+}
+
+func (tm *terms) closure(name string) map[string]bool {
+	d, ok := tm.defs[name]
+	if !ok {
+		return nil
+	}
+	if d.sort == "fun" || strings.HasPrefix(d.sort, "(Array") {
+		return nil
+	}
+	if d.closed != nil {
+		return d.closed
+	}
+	d.closed = map[string]bool{name: true}
+	if strings.HasPrefix(name, "pc!") || strings.HasPrefix(name, "ld!") {
+		// path conditions and memory loads are atoms for slicing: a
+		// constraint on loaded data says nothing about the address it was
+		// loaded from
+		return d.closed
+	}
+	for _, x := range d.deps {
+		for k := range tm.closure(x) {
+			d.closed[k] = true
+		}
+	}
+	return d.closed
+}
+
+// weakQuery assembles "assumptions and not goal" with only the definitions
+// in the cone of influence; merged path conditions (pc!N) are left
+// uninterpreted (a sound weakening: more models).
+func (tm *terms) weakQuery(assumptions []smt.Term, goal smt.Term, getValues []string) string {
+	var b strings.Builder
+	b.WriteString("(set-logic QF_AUFBV)\n")
+	visited := map[string]bool{}
+	var visit func(name string)
+	visit = func(name string) {
+		if visited[name] {
+			return
+		}
+		visited[name] = true
+		d, ok := tm.defs[name]
+		if !ok {
+			return
+		}
+		if d.isDef && strings.HasPrefix(name, "pc!") {
+			b.WriteString("(declare-fun " + name + " () Bool)\n")
+			return
+		}
+		for _, x := range d.deps {
+			visit(x)
+		}
+		b.WriteString(d.text)
+		b.WriteByte('\n')
+	}
+	visitTerm := func(s string) {
+		toks := map[string]bool{}
+		smt.Symbols(s, toks)
+		ks := make([]string, 0, len(toks))
+		for k := range toks {
+			ks = append(ks, k)
+		}
+		sort.Strings(ks)
+		for _, k := range ks {
+			visit(k)
+		}
+	}
+	for _, a := range assumptions {
+		visitTerm(a.S)
+	}
+	visitTerm(goal.S)
+	for _, g := range getValues {
+		visitTerm(g)
+	}
+	for changed := true; changed; {
+		changed = false
+		for i := range tm.axioms {
+			ax := &tm.axioms[i]
+			if visited[ax.key] && !visited["axiom:"+ax.term.S] {
+				visited["axiom:"+ax.term.S] = true
+				visitTerm(ax.term.S)
+				b.WriteString("(assert " + ax.term.S + ")\n")
+				changed = true
+			}
+		}
+	}
+	for _, a := range assumptions {
+		b.WriteString("(assert " + a.S + ")\n")
+	}
+	b.WriteString("(assert " + smt.Not(goal).S + ")\n(check-sat)\n")
+	if len(getValues) > 0 {
+		b.WriteString("(get-value (" + strings.Join(getValues, " ") + "))\n")
+	}
+	return b.String()
 }
 
 func (tm *terms) addConst(a smt.Term, c uint64) smt.Term {
